@@ -8,6 +8,7 @@ import time
 
 from . import verusunit as vu
 from . import kani as kn
+from .common import result_line
 from .common import (Scratch, Undecided, Obligation, VERIF, REPO, load_known, write_replay, log, run,
                      EXIT_OK, EXIT_VIOLATION, EXIT_UNDECIDED, repo_rev)
 from .rustsrc import Lost
@@ -221,7 +222,7 @@ class Ctx:
             module, which = finder['ground']
             rc, out, err, secs = run([b, 'ground', module, which], timeout=600)
             self.t('native-finder', secs)
-            line = (out.strip().splitlines() or [''])[-1]
+            line = result_line(out)
             if line.startswith('FAIL'):
                 wit = dict(instance=line[5:], observed=line, via='native evaluation %s/%s' % (module, which), replay=['ground', module, which])
             finder = None
@@ -252,7 +253,7 @@ class Ctx:
         b = self.native()
         rc, out, err, secs = run([b, 'ground', module, which], timeout=900)
         self.t('native-ground', secs)
-        line = (out.strip().splitlines() or [''])[-1]
+        line = result_line(out)
         name = 'ground/%s::%s' % (module, which)
         if line.startswith('OK'):
             n = int(line.split()[1])
